@@ -6,8 +6,11 @@ ACCEPT, REJECT, DONTCARE = "accept", "reject", "dont-care"
 
 def ref_parse(text):
     """-> (verdict, sequence or None, reason)"""
-    if "\t" in text or "\r" in text or "\x0b" in text or "\x0c" in text:
-        return DONTCARE, None, "tabs / carriage returns / form feeds are not mentioned by the statement"
+    # a text file's lines end with \n, \r\n or a bare \r (what reading a file in text mode means); tabs, vertical tabs and form
+    # feeds are not mentioned by the statement
+    text = text.replace("\r\n", "\n").replace("\r", "\n")
+    if "\t" in text or "\x0b" in text or "\x0c" in text:
+        return DONTCARE, None, "tabs / vertical tabs / form feeds are not mentioned by the statement"
     for ch in text:
         if ch.isspace() and ch not in " \n":
             return DONTCARE, None, "exotic whitespace"
